@@ -352,6 +352,10 @@ func (w *World) genDevice(stream string, maxBytes int) kernel.DevCfg {
 		cfg.Helper = true
 		w.r.Fault("buffer_filled_by_helper_goroutine_while_the_callers_stack_moves")
 	}
+	if w.t.Chance(stream, "dev.gc", 1, 10) {
+		cfg.GC = 1 + w.t.Choose(stream, "dev.gc.n", 2)
+		w.r.Fault("garbage_collected_inside_the_entropy_read")
+	}
 	if w.t.Chance(stream, "dev.fail", 3, 10) {
 		cfg.ErrAt = w.t.Choose(stream, "dev.errat", maxBytes+8)
 		cfg.ErrKind = 1 + w.t.Choose(stream, "dev.errkind", 5)
@@ -490,6 +494,8 @@ func Run(run *kernel.Run, prop string) {
 			w.opWipeKeyBuffer(step)
 		case 9:
 			w.opPreHashBurst(step)
+		case 11:
+			w.opKeyChurn(step)
 		case 10:
 			// the garbage collector as a fault the tape decides: one or two
 			// complete collections (two empty every sync.Pool), finalizers
@@ -507,13 +513,13 @@ func Run(run *kernel.Run, prop string) {
 }
 
 func (w *World) opWeights() []int {
-	// kinds: ecdsa, variation, schnorr, sampler(hook), generatekey, drbg, schnorr-variation, long history, wipe key buffer, pre-hash burst, garbage collection
-	base := []int{8, 6, 3, 2, 1, 1, 1, 2, 1, 0, 1}
+	// kinds: ecdsa, variation, schnorr, sampler(hook), generatekey, drbg, schnorr-variation, long history, wipe key buffer, pre-hash burst, garbage collection, key-object churn
+	base := []int{8, 6, 3, 2, 1, 1, 1, 2, 1, 0, 1, 1}
 	switch w.prop {
 	case "C14":
-		base = []int{2, 1, 10, 0, 0, 0, 5, 0, 1, 1, 1}
+		base = []int{2, 1, 10, 0, 0, 0, 5, 0, 1, 1, 1, 1}
 	case "C08":
-		base = []int{10, 5, 1, 0, 1, 0, 0, 4, 1, 0, 1}
+		base = []int{10, 5, 1, 0, 1, 0, 0, 4, 1, 0, 1, 1}
 	}
 	// swarm: knock out or boost some kinds per run
 	out := make([]int, len(base))
